@@ -73,6 +73,7 @@ from exabgp.protocol.family import (
     AFI,
 )
 from exabgp.protocol.ip import IP, IPSelf, IPv4, IPv6
+from exabgp.protocol.resource import BaseValue
 from exabgp.rib.route import Route
 
 # TypeVar for flow condition classes
@@ -233,15 +234,22 @@ def _value(string: str) -> tuple[str, str]:
     return string[:ls], string[ls:]
 
 
+def _fitting(klass: Type[FlowConditionT], text: str) -> BaseValue:
+    # a value the component can not encode is refused now: at pack time it is an exception in the
+    # middle of a reload or of an UPDATE generator
+    value = klass.converter(text)
+    limit = 1 << (8 * max(klass.VALUE_SIZES))
+    if value < 0 or value >= limit:
+        raise ValueError(f"'{text}' is out of range for {klass.NAME}\n  Must be 0 to {limit - 1}")
+    return value
+
+
 # parse [ content1 content2 content3 ]
 # parse =80 or >80 or <25 or &>10<20
 def _generic_condition(tokeniser: 'Tokeniser', klass: Type[FlowConditionT]) -> Generator[FlowConditionT, None, None]:
-    # Validate that the flow rule component is valid for the current address family
-    afi = tokeniser.afi
-    if afi == AFI.ipv4 and not issubclass(klass, FlowIPv4):
-        raise ValueError(f"'{klass.__name__}' is not valid for IPv4 flow routes (IPv6-only component)")
-    if afi == AFI.ipv6 and not issubclass(klass, FlowIPv6):
-        raise ValueError(f"'{klass.__name__}' is not valid for IPv6 flow routes (IPv4-only component)")
+    # Whether the component exists for the rule's address family is checked once the whole rule has
+    # been read (Flow.family_error): the family is told by the prefixes, which may come after this
+    # statement, and tokeniser.afi still holds the family of whatever command was parsed before
 
     _operator = _operator_binary if klass.OPERATION == 'binary' else _operator_numeric
     data: str = tokeniser()
@@ -256,7 +264,7 @@ def _generic_condition(tokeniser: 'Tokeniser', klass: Type[FlowConditionT]) -> G
             operator, _ = _operator(data)
             value: str
             value, data = _value(_)
-            yield klass(AND | operator, klass.converter(value))
+            yield klass(AND | operator, _fitting(klass, value))
             if data:
                 if data[0] != '&':
                     raise ValueError('Unknown binary operator {}'.format(data[0]))
@@ -271,7 +279,7 @@ def _generic_condition(tokeniser: 'Tokeniser', klass: Type[FlowConditionT]) -> G
         while data:
             operator, _ = _operator(data)
             value, data = _value(_)
-            yield klass(operator | AND, klass.converter(value))
+            yield klass(operator | AND, _fitting(klass, value))
             if data:
                 if data[0] != '&':
                     raise ValueError('Unknown binary operator {}'.format(data[0]))
